@@ -289,7 +289,9 @@ pub(crate) fn run_job(
         nleaves += 1;
         {
             let _g = WorkerGuard::enter(w);
+            next_leaf();
             leaf(job.node, lo, hi);
+            next_leaf();
         }
     }
     with_stats(|s| {
@@ -299,6 +301,17 @@ pub(crate) fn run_job(
         }
     });
     nodes
+}
+
+thread_local! {
+    static LEAF_EPOCH: std::cell::Cell<u64> = const { std::cell::Cell::new(0) };
+}
+/// a number that changes whenever a new leaf starts executing (per-leaf state of map_init / map_with)
+pub(crate) fn leaf_epoch() -> u64 {
+    LEAF_EPOCH.with(|e| e.get())
+}
+pub(crate) fn next_leaf() {
+    LEAF_EPOCH.with(|e| e.set(e.get() + 1));
 }
 
 pub(crate) fn global_threads() -> usize {
